@@ -229,7 +229,7 @@ class Statement(object):
                 self.fixed_size = True
                 raw_post_byte |= self.code_pkg.post_byte_choices[0]
                 self.code_pkg.post_byte = NumericValue(raw_post_byte)
-            elif min_size > 127 and max_size > 127:
+            else:
                 self.code_pkg.size += 2
                 self.code_pkg.max_size = self.code_pkg.size
                 self.pcr_size_hint = 4
@@ -244,7 +244,7 @@ class Statement(object):
                 self.fixed_size = True
                 raw_post_byte |= self.code_pkg.post_byte_choices[0]
                 self.code_pkg.post_byte = NumericValue(raw_post_byte)
-            elif min_size > 128 and max_size > 128:
+            else:
                 self.code_pkg.size += 2
                 self.code_pkg.max_size = self.code_pkg.size
                 self.pcr_size_hint = 4
